@@ -36,6 +36,7 @@ func verifC14Select(K int) {
 		fc.listErr = true
 	case 2:
 		fc.failOpen = vsymChoice("failOpen", K)
+		fc.failOpenKind = vsymChoice("failOpenKind", 3) // whatever class the daemon's error has, it is an error
 	}
 	q := &Querier{client: fc}
 	vsymSchedAll()
